@@ -83,6 +83,12 @@ func expectedBody(c *model.Ctx, prefix string, skipName string) (want []string, 
 		}
 		set[bl.Type] = true
 	}
+	// the placeholder candidate of an any-attribute body is labelled "name": next
+	// to a block type called "name" the two labels coincide (no duplicate item)
+	if b.Any != nil && b.Block("name") != nil {
+		optional["name"] = true
+		delete(set, "name")
+	}
 	// the dynamic-block extension: whether "dynamic" is offered when the body
 	// has no block types is left open
 	if strings.HasPrefix("dynamic", prefix) {
